@@ -37,7 +37,8 @@ THEOREMS = [
     "Determinism.source_ties_keep_input_order", "Determinism.source_never_mixed", "Determinism.sortedSource_defined",
     "Determinism.lower_order_invariant_partial", "Determinism.lower_tie_counterexample",
     "Determinism.unmaskedAttrs_enum_invariant", "Determinism.unmaskedAttrs_in_contents_order",
-    "Determinism.unmaskedAttrs_no_indexError",
+    "Determinism.unmaskedAttrs_no_indexError", "Determinism.documentOrder_in_registry_order",
+    "Determinism.documentOrder_visible_only",
     "Determinism.buildtime_function_of_inputs", "Determinism.buildtime_epoch_used", "Determinism.buildtime_epoch_zero",
     "Determinism.buildtime_option_wins", "Determinism.buildtime_clock_when_unset", "Determinism.buildtime_notInt_refused",
 ]
@@ -1077,6 +1078,15 @@ def presentation_stream(ctx: Ctx, st: Streams, scratch: Path) -> None:
                 impl2 = " ".join(["ok"] + [str(ids2[id(o)]) for o in util.unmasked_attrs(chain)])
                 st.add("util.unmasked_attrs~unmaskedAttrs", "determinism unmasked " + " | ".join(g2), impl2,
                        {"project": pid, "chain": [c.fullName() for c in chain]})
+        # search documents: order of all-documents.html / the lunr corpus
+        from pydoctor.templatewriter import search
+        docs = [d["id"] for d in search.get_all_documents_flattenable(system)]
+        corpus = [d[0]["qname"] for d in search.LunrIndexWriter(out / "x.json", system, ["qname"]).get_corpus()]
+        reg = [(o.fullName(), o.isVisible) for o in system.allobjects.values()]
+        if all(safe(n.replace(" ", "_")) for n, _ in reg):
+            req = "determinism documents " + " ".join("%s;%s" % (enc(n), "v" if v else "h") for n, v in reg)
+            st.add("search.get_all_documents~documentOrder", req, " ".join(["ok"] + [enc(n) for n in docs]), {"project": pid})
+            st.add("search.get_corpus~documentOrder", req, " ".join(["ok"] + [enc(n) for n in corpus]), {"project": pid})
         # UndocumentedSummaryPage: list.sort(key=fullName), read back from the rendered list
         undoc = [o for o in system.allobjects.values() if o.isVisible and not summary.hasdocstring(o)]
         if undoc:
